@@ -185,8 +185,10 @@ fn suspect(evs: &[Value], supsent: Option<i64>, kids: Option<i64>) -> bool {
     })
 }
 
-fn reset_meta(family: &str, named: bool, inpg: bool, sup: bool, kids: usize) -> Value {
-    json!({"family": family, "named": i64::from(named), "inpg": i64::from(inpg), "hsup": i64::from(sup), "kids": kids})
+fn reset_meta(family: &str, named: bool, inpg: bool, sup: bool, kids: usize, racer: bool, late: bool) -> Value {
+    // racer / late: whether this run has the extra set_status callers at all (the specification must not invent them)
+    json!({"family": family, "named": i64::from(named), "inpg": i64::from(inpg), "hsup": i64::from(sup), "kids": kids,
+           "racer": i64::from(racer), "late": i64::from(late)})
 }
 
 pub fn one_run_h(shape: &Shape, ex: &mut Explorer) -> (Vec<Value>, Value, bool) {
@@ -348,7 +350,7 @@ pub fn one_run_h(shape: &Shape, ex: &mut Explorer) -> (Vec<Value>, Value, bool) 
     ractor::pg::leave(group.clone(), vec![cell.clone()]);
     ractor::pg::demonitor(format!("{group}-m"), cell.get_id());
     let bad = run.overrun || !run.stuck.is_empty();
-    let mut meta = reset_meta("exitwait-h", shape.named, shape.inpg, shape.sup, shape.kids);
+    let mut meta = reset_meta("exitwait-h", shape.named, shape.inpg, shape.sup, shape.kids, shape.racer, shape.late != 0);
     let m = meta.as_object_mut().unwrap();
     m.insert("shape".into(), json!(format!("{shape:?}")));
     m.insert("sched".into(), json!(ex.sched));
@@ -732,7 +734,7 @@ pub fn one_run_t(sc: &TScenario, ex: &mut Explorer) -> (Vec<Value>, Value, bool)
     end.insert("ncleanup".into(), json!(ncleanup));
     evs.push(Value::Object(end));
     let bad = !run.quiescent || g.done.iter().any(|d| !d);
-    let mut meta = reset_meta("exitwait-t", true, true, true, usize::from(sc.kid));
+    let mut meta = reset_meta("exitwait-t", true, true, true, usize::from(sc.kid), false, false);
     let m = meta.as_object_mut().unwrap();
     m.insert("scenario".into(), json!(format!("{sc:?}")));
     m.insert("sched".into(), json!(ex.sched));
